@@ -35,7 +35,15 @@ def own_schema(doc):
 
 
 def spell(path, how):
-    return path if how == 'rel' else os.path.join(common.REPO, path)
+    """The spellings localpath() is written to understand: repo-relative (as the tests use),
+    absolute, bare (without the leading json/ - found by the directory search) and back-slashed."""
+    if how == 'rel':
+        return path
+    if how == 'abs':
+        return os.path.join(common.REPO, path)
+    if how == 'bare':
+        return path[len('json/'):] if path.startswith('json/') else path
+    return path.replace('/', '\\')        # 'bs'
 
 
 # a call: ('sv', schema, spelling, validator-name-or-None, expect_failure)
@@ -142,7 +150,7 @@ def run_history(mods, calls, neutral_cwd, fault=None):
 def alphabet(docs):
     A = []
     for s in SCHEMAS:
-        for sp in ('rel', 'abs'):
+        for sp in ('rel', 'abs', 'bare', 'bs'):
             for v in VALIDATORS:
                 for ef in (False, True):
                     A.append(('sv', s, sp, v, ef))
@@ -154,14 +162,19 @@ def alphabet(docs):
             o = own_schema(d)
             A.append(('va', d, 'abs', o, 'abs', ef))
             A.append(('va', d, 'abs', o, 'rel', ef))
+            A.append(('va', d, 'rel', o, 'bare', ef))
+            A.append(('va', d, 'rel', o, 'bs', ef))
             A.append(('va', d, 'rel', 'json/metaschema.json', 'abs', ef))
+            A.append(('va', d, 'rel', 'json/metaschema.json', 'bare', ef))
     return A
 
 
 def rand_call(rng, docs):
     if rng.random() < 0.45:
         s = rng.choice(SCHEMAS[:7] if rng.random() < 0.7 else SCHEMAS)
-        return ('sv', s, 'rel' if rng.random() < 0.8 else 'abs', rng.choice(VALIDATORS), rng.random() < 0.35)
+        x = rng.random()
+        sp = 'rel' if x < 0.7 else 'abs' if x < 0.8 else 'bare' if x < 0.92 else 'bs'
+        return ('sv', s, sp, rng.choice(VALIDATORS), rng.random() < 0.35)
     d = rng.choice(docs)
     x = rng.random()
     if x < 0.55:
@@ -171,12 +184,12 @@ def rand_call(rng, docs):
     else:
         s = rng.choice(SCHEMAS)
     y = rng.random()
-    if y < 0.8 or s not in (own_schema(d), 'json/metaschema.json'):
+    if y < 0.75 or s not in (own_schema(d), 'json/metaschema.json'):
         sp = ('rel', 'rel')
     elif s == 'json/metaschema.json':
-        sp = ('rel', 'abs')
+        sp = rng.choice([('rel', 'abs'), ('rel', 'bare')])
     else:
-        sp = rng.choice([('abs', 'abs'), ('abs', 'rel')])
+        sp = rng.choice([('abs', 'abs'), ('abs', 'rel'), ('rel', 'bare'), ('rel', 'bs')])
     return ('va', d, sp[0], s, sp[1], rng.random() < 0.35)
 
 
@@ -188,11 +201,12 @@ def flip(rng, call):
             return call[:4] + (not call[4],)
         if x < 0.85:
             return call[:3] + (rng.choice(VALIDATORS), rng.random() < 0.5)
-        return ('sv', call[1], 'abs' if call[2] == 'rel' else 'rel', call[3], rng.random() < 0.5)
+        return ('sv', call[1], rng.choice([x for x in ('rel', 'abs', 'bare', 'bs') if x != call[2]]), call[3], rng.random() < 0.5)
     if x < 0.7:
         return call[:5] + (not call[5],)
     if x < 0.85 and call[3] in (own_schema(call[1]),):
-        return ('va', call[1], 'abs', call[3], rng.choice(['abs', 'rel']), rng.random() < 0.5)
+        sp = rng.choice([('abs', 'abs'), ('abs', 'rel'), ('rel', 'bare'), ('rel', 'bs')])
+        return ('va', call[1], sp[0], call[3], sp[1], rng.random() < 0.5)
     return call[:5] + (rng.random() < 0.5,)
 
 
@@ -456,6 +470,9 @@ def _main(tier_, master, cfg, docs, A, cwd, t0):
     table, files, socks = fresh_table(A, cwd)
     hist = {}
     need = set()
+    corpus = [(os.path.basename(pth), [tuple(c) for c in common.load_replay(pth)['trace']]) for pth in common.corpus_files(PROP)]
+    for _, calls in corpus:
+        need |= set(c for c in calls if c not in table)
     for i in range(n):
         kind, calls = history_for(master, i, docs, table)
         for c in calls:
@@ -529,6 +546,21 @@ def _main(tier_, master, cfg, docs, A, cwd, t0):
         for cls, v in p['viols'].items():
             if cls not in viols or v['run_index'] < viols[cls]['run_index']:
                 viols[cls] = v
+    # directed regression: the recorded failing histories of this property
+    cst = {'replayed': 0, 'reproduced': 0}
+    if corpus:
+        mods0 = None
+        def cw(wi, nw):
+            mods = prepare()
+            return [(name, calls, run_history(mods, calls, cwd)[0]) for name, calls in corpus[wi::nw]]
+        for part in common.run_pool(cw, min(4, len(corpus)), wall_cap=600):
+            for name, calls, outs in part:
+                cst['replayed'] += 1
+                v = check_history(table, calls, outs)
+                if v is not None:
+                    cst['reproduced'] += 1
+                    viols.setdefault(v[0], {'class': v[0], 'detail': v[1], 'trace': [list(c) for c in calls], 'outcomes': outs,
+                                            'run_index': -1, 'minimised_from': len(calls)})
     # history-independent clauses, re-evaluated with everything the histories opened
     absbad = absolute_clauses(table, docs, files, socks)
     det = determinism_selftest(master, cfg['det'], docs, table, cwd)
@@ -581,6 +613,7 @@ def _main(tier_, master, cfg, docs, A, cwd, t0):
         'absolute_clause_failures': sorted(seenabs),
         'violating_runs': st.get('violating_runs', 0),
         'violation_classes': sorted(viols),
+        'regression_corpus': cst,
         'determinism': det,
         'all_runs_digest': '%016x' % rd,
         'components': {'real': ['athlib.utils (working tree)', 'jsonschema 3.2', 'json', 'urllib file: handler', 'the bundled schema and sample files'],
